@@ -314,25 +314,49 @@ Theorem C09_chain : forall c toks names ext, line c toks names ext ->
 Proof. exact chain_of_line. Qed.
 Print Assumptions C09_chain.
 
+(** the same with short flag-subcommands ([gline]; [line] is the special case, [C09_line_is_gline]):
+    a level may also be left through `-S` (the letter alone: the child starts fresh) or through the
+    FIRST letter of a longer cluster `-Syu` (class simple_flag_cluster: the level was not itself entered
+    through a cluster, so [flag_subcmd_at] is clean); the child entered that way re-reads the same
+    token with skip = 1 as flags of its own ([lprefix … true]) and goes on with its own prefix.
+    [start_ok]: nothing recorded yet, skip as announced *)
+Theorem C09_chain_short_flags : forall c b toks names ext, gline c b toks names ext ->
+  forall f st0 st, start_ok b st0 -> get_matches_with f c toks st0 = ROk st ->
+  chain (into_inner (mt st)) = names /\
+  match ext with
+  | Some vals => deepest (into_inner (mt st)) = [(ext_id, ext_marg vals)]
+  | None => True
+  end.
+Proof. exact chain_of_gline. Qed.
+Print Assumptions C09_chain_short_flags.
+
+Theorem C09_line_is_gline : forall c toks names ext, line c toks names ext -> gline c false toks names ext.
+Proof. exact line_gline. Qed.
+Print Assumptions C09_line_is_gline.
+
 (** the chain composed with the globals merge, for [_do_parse]: the chain reported after
-    [propagate_globals] is [names]; the global arguments of the top command are among the merged ids;
-    every merged id that has an entry somewhere on the chain has ONE entry at every level of the
-    result (same values, same source), it is one of the parsed entries and of maximal source — an
-    explicit occurrence at any level beats the defaults of all levels *)
+    [propagate_globals] is [names]; the global arguments of EVERY level of the line (the commands
+    [_build_subcommand] produced along [names], an external subcommand excluded) are among the merged
+    ids — the eagerly built tree [get_used_global_args] walks and the lazily built levels agree, and
+    the fuel of the eager build suffices because the parser did not run out of it; every merged id
+    that has an entry somewhere on the chain has ONE entry at every level of the result (same values,
+    same source), it is one of the parsed entries and of maximal source — an explicit occurrence at
+    any level beats the defaults of all levels *)
 Theorem C09_chain_globals : forall c0 toks names ext m',
-  line (build_self c0) toks names ext -> is_set s_ignore_errors (build_self c0) = false ->
+  gline (build_self c0) false toks names ext -> is_set s_ignore_errors (build_self c0) = false ->
   do_parse c0 toks = OOk m' ->
   exists m globals,
     m' = fst (filled (S (matches_depth m)) globals m) /\
     globals = used_global_args (S (matches_depth m)) (build_recursive (S (S (depth (build_self c0)))) c0) m /\
     chain m = names /\ chain m' = names /\ length (levels m') = S (length names) /\
     match ext with Some vals => deepest m = [(ext_id, ext_marg vals)] | None => True end /\
-    (forall a, In a (c_args (build_self c0)) -> a_global a = true -> mem_id (a_id a) globals = true) /\
+    (forall lc a, In lc (lazy_cmds (build_self c0) (real_names names ext)) -> In a (c_args lc) -> a_global a = true ->
+       mem_id (a_id a) globals = true) /\
     (forall g e0, mem_id g globals = true -> In (Some e0) (map (fm_get g) (levels m)) ->
        exists e,
          (forall lv, In lv (levels m') -> fm_get g lv = Some e) /\
          In (Some e) (map (fm_get g) (levels m)) /\
          mrank e0 <= mrank e /\
          (m_source e0 = Some SCmdLine -> m_source e = Some SCmdLine)).
-Proof. exact do_parse_line. Qed.
+Proof. exact do_parse_gline. Qed.
 Print Assumptions C09_chain_globals.
